@@ -402,4 +402,217 @@ theorem closeAll_legal (k : Nat) : ∀ s : TState, s.Legal → (closeAll k s).Le
 
 theorem finish_legal (s : TState) (h : s.Legal) : (finish s).Legal := closeAll_legal _ s h
 
+
+/-! ### the tree builder only builds trees of the serialiser's element shape
+
+  lower-case names, void ⇒ self-closing, self-closing ⇒ no blocks: the element part of `LNode.WF`, as an invariant
+  of the open-element stack machine. -/
+
+mutual
+def Node.WFN : Node → Prop
+  | .text _ => True
+  | .elem n _ sc kids => lower n = n ∧ (AHP.isVoid n = true → sc = true) ∧ (sc = true → kids = []) ∧ WFNL kids
+def WFNL : List Node → Prop
+  | [] => True
+  | k :: ks => k.WFN ∧ WFNL ks
+end
+
+theorem wfNL_iff (ks : List Node) : WFNL ks ↔ ∀ k ∈ ks, k.WFN := by
+  induction ks with
+  | nil => simp [WFNL]
+  | cons k ks ih => simp [WFNL, ih]
+
+theorem wfNL_reverse (ks : List Node) (h : WFNL ks) : WFNL ks.reverse := by
+  rw [wfNL_iff] at h ⊢
+  intro k hk
+  exact h k (List.mem_reverse.mp hk)
+
+private theorem lowerChar_idem' (c : Char) : lowerChar (lowerChar c) = lowerChar c := by
+  unfold lowerChar
+  split
+  · next h =>
+    have h1 : ∀ n : Nat, n < 91 → 65 ≤ n →
+        ¬ ('A' ≤ Char.ofNat (n + 32) ∧ Char.ofNat (n + 32) ≤ 'Z') := by decide
+    have ha : 65 ≤ c.toNat := h.1
+    have hz : c.toNat ≤ 90 := h.2
+    rw [if_neg (h1 c.toNat (by omega) ha)]
+  · rfl
+
+theorem lower_lower (s : Str) : lower (lower s) = lower s := by
+  unfold lower
+  rw [List.map_map]
+  apply List.map_congr_left
+  intro c _
+  exact lowerChar_idem' c
+
+/-- an open element: lower-case, not void (a void element never stays open), blocks so far well shaped -/
+def Frame.WFF (f : Frame) : Prop := lower f.name = f.name ∧ AHP.isVoid f.name = false ∧ WFNL f.rev
+
+def TState.WFS (s : TState) : Prop := (∀ f ∈ s.stack, f.WFF) ∧ (∀ r, s.root = some r → r.WFN)
+
+theorem TState.init_wfs : TState.init.WFS := by
+  constructor
+  · intro f hf; simp [TState.init] at hf
+  · intro r hr; simp [TState.init] at hr
+
+theorem addNode_wfs (s : TState) (c : Node) (h : s.WFS) (hc : c.WFN) : (addNode s c).WFS := by
+  unfold addNode
+  cases hs : s.stack with
+  | nil =>
+    refine ⟨by intro f hf; simp at hf, ?_⟩
+    intro r hr; simp at hr; rw [← hr]; exact hc
+  | cons f fs =>
+    have hf := h.1 f (by rw [hs]; exact List.mem_cons_self)
+    refine ⟨?_, h.2⟩
+    intro g hg
+    simp only [List.mem_cons] at hg
+    rcases hg with e | e
+    · rw [e]; exact ⟨hf.1, hf.2.1, by simp only [WFNL]; exact ⟨hc, hf.2.2⟩⟩
+    · exact h.1 g (by rw [hs]; exact List.mem_cons_of_mem _ e)
+
+theorem pop1_wfs (s : TState) (h : s.WFS) : (pop1 s).WFS := by
+  unfold pop1
+  cases hs : s.stack with
+  | nil => simpa [hs] using h
+  | cons f fs =>
+    have hf := h.1 f (by rw [hs]; exact List.mem_cons_self)
+    apply addNode_wfs
+    · exact ⟨fun g hg => h.1 g (by rw [hs]; exact List.mem_cons_of_mem _ hg), h.2⟩
+    · simp only [Frame.close, Node.WFN]
+      refine ⟨hf.1, ?_, ?_, wfNL_reverse _ hf.2.2⟩
+      · intro hv; rw [hf.2.1] at hv; cases hv
+      · intro hsc; cases hsc
+
+theorem popTo_wfs (n : Str) (k : Nat) : ∀ s : TState, s.WFS → (popTo n k s).WFS := by
+  induction k with
+  | zero => intro s h; exact h
+  | succ k ih =>
+    intro s h
+    unfold popTo
+    cases hs : s.stack with
+    | nil => exact h
+    | cons f fs =>
+      simp only
+      split
+      · exact pop1_wfs s h
+      · exact ih _ (pop1_wfs s h)
+
+theorem stepT_wfs (s s' : TState) (t : Token) (h : s.WFS) (hs : stepT s t = .ok s') : s'.WFS := by
+  have hstart : ∀ (n : Str) (a : List Attr) (sc : Bool), handleStart s n a sc = .ok s' → s'.WFS := by
+    intro n a sc he
+    unfold handleStart at he
+    simp only at he
+    split at he
+    · split at he
+      · rename_i hsc
+        cases he
+        apply addNode_wfs s _ h
+        simp only [Node.WFN, WFNL, and_true]
+        exact ⟨lower_lower n, fun _ => trivial, fun _ => trivial⟩
+      · rename_i hsc
+        cases he
+        have hv : AHP.isVoid (lower n) = false := by
+          cases hvv : AHP.isVoid (lower n) with
+          | false => rfl
+          | true => simp [hvv] at hsc
+        refine ⟨?_, h.2⟩
+        intro g hg
+        simp only [List.mem_cons] at hg
+        rcases hg with e | e
+        · rw [e]; exact ⟨lower_lower n, hv, by simp [WFNL]⟩
+        · exact h.1 g e
+    · cases he
+  have htext : ∀ txt : Str, addTextStrict s txt = .ok s' → s'.WFS := by
+    intro txt he
+    unfold addTextStrict at he
+    split at he
+    · cases he
+    · cases he; exact addNode_wfs s _ h (by simp [Node.WFN])
+  cases t with
+  | start n a => exact hstart n a false hs
+  | startend n a => exact hstart n a true hs
+  | end_ n =>
+    simp only [stepT] at hs
+    cases hs
+    unfold handleEnd
+    split
+    · exact popTo_wfs n _ s h
+    · exact h
+  | data d =>
+    simp only [stepT] at hs
+    split at hs
+    · cases hs; exact h
+    · split at hs
+      · cases hs; exact addNode_wfs s _ h (by simp [Node.WFN])
+      · split at hs
+        · cases hs; exact h
+        · cases hs
+  | entity e => exact htext _ hs
+  | charref e => exact htext _ hs
+  | comment e => exact htext _ hs
+  | decl d => cases hs; exact h
+  | unknownDecl d => cases hs; exact h
+  | pi d => cases hs; exact h
+
+theorem runT_wfs (ts : List Token) : ∀ s s' : TState, s.WFS → runT s ts = .ok s' → s'.WFS := by
+  induction ts with
+  | nil => intro s s' h hr; cases hr; exact h
+  | cons t ts ih =>
+    intro s s' h hr
+    simp only [runT] at hr
+    cases hst : stepT s t with
+    | ok s1 => rw [hst] at hr; exact ih s1 s' (stepT_wfs s s1 t h hst) hr
+    | multipleRoot => rw [hst] at hr; cases hr
+    | invalidClose => rw [hst] at hr; cases hr
+    | missedClose => rw [hst] at hr; cases hr
+    | invalidAttr => rw [hst] at hr; cases hr
+
+theorem closeAll_wfs (k : Nat) : ∀ s : TState, s.WFS → (closeAll k s).WFS := by
+  induction k with
+  | zero => intro s h; exact h
+  | succ k ih =>
+    intro s h
+    unfold closeAll
+    cases hs : s.stack with
+    | nil => exact h
+    | cons f fs => exact ih _ (pop1_wfs s h)
+
+theorem finish_wfs (s : TState) (h : s.WFS) : (finish s).WFS := closeAll_wfs _ s h
+
+/-! #### from the plain tree to its lexical normal form -/
+
+mutual
+/-- every text block of the normal form is a text-like token (data run, reference, comment) -/
+def LNode.TextLike : LNode → Prop
+  | .tok t => (Spec.textOf t).isSome
+  | .elem _ _ _ kids => TextLikeL kids
+def TextLikeL : List LNode → Prop
+  | [] => True
+  | k :: ks => k.TextLike ∧ TextLikeL ks
+end
+
+theorem toNodeL_eq_nil (ks : List LNode) (h : toNodeL ks = []) : ks = [] := by
+  cases ks with
+  | nil => rfl
+  | cons k ks => simp [toNodeL] at h
+
+mutual
+theorem wf_of_toNode (t : LNode) (ht : t.TextLike) (h : t.toNode.WFN) : t.WF := by
+  match t, ht, h with
+  | .tok tk, ht, _ => simpa [LNode.WF, LNode.TextLike] using ht
+  | .elem n a sc kids, ht, h =>
+    simp only [LNode.TextLike] at ht
+    simp only [LNode.toNode, Node.WFN] at h
+    simp only [LNode.WF]
+    exact ⟨h.1, h.2.1, fun hsc => toNodeL_eq_nil kids (h.2.2.1 hsc), wfLL_of_toNodeL kids ht h.2.2.2⟩
+theorem wfLL_of_toNodeL (ks : List LNode) (ht : TextLikeL ks) (h : WFNL (toNodeL ks)) : WFLL ks := by
+  match ks, ht, h with
+  | [], _, _ => simp [WFLL]
+  | k :: ks, ht, h =>
+    simp only [TextLikeL] at ht
+    simp only [toNodeL, WFNL] at h
+    simp only [WFLL]
+    exact ⟨wf_of_toNode k ht.1 h.1, wfLL_of_toNodeL ks ht.2 h.2⟩
+end
+
 end AHP
